@@ -55,22 +55,29 @@ NA["C14"] = ("LpgStore under CBMC: new() alone 30 s, create+get 68 s, any 2-3 op
              "clause of this property is decided under C10")
 
 claim("C02",
-      "Bounded model checking of the real TransactionManager and LpgStore composed exactly as session.rs composes them (begin, create_node at the transaction's start epoch, "
-      "rollback = discard_uncommitted_versions + abort): after a rollback the created node is invisible to a later reader outside and inside a transaction (the epoch the writer "
-      "started at is symbolic: 0 or 1 prior commits). One open known finding (rollback leaves the unversioned label index) is pinned by a witness harness.",
-      "Thorough-tier only harnesses (200-900 s each); the quick command runs the same set. Session itself is not encoded (its Arc<LpgStore> makes the store a heap object); "
-      "properties, edges, deletes, failed commits, dropped sessions, MERGE and query-issued mutations are outside the bound.",
+      "Bounded model checking of rollback at two levels. Kernel: VersionChain::remove_versions_by on a chain of a committed base version and two versions of the rolled-back "
+      "transaction (all epochs, creators, viewer symbolic): afterwards none of the transaction's versions is visible to anyone and every viewer sees exactly the pre-transaction "
+      "state. Composition: the real TransactionManager and LpgStore composed as session.rs composes them (begin, create_node at the transaction's start epoch, rollback = "
+      "discard_uncommitted_versions + abort; the writer's start epoch symbolic): the created node is invisible afterwards to readers outside and inside a transaction. One open known "
+      "finding (rollback leaves a property written in the transaction) is pinned by a witness harness.",
+      "Session itself is not encoded (its Arc<LpgStore> makes the store a heap object: no verdict); commit publication is an optional thorough harness (no verdict within 15 min under "
+      "load); edges, deletes, labels, failed commits, dropped sessions, MERGE and query-issued mutations are outside the bound.",
       "DESIGN.md 9.4 C02")
 claim("C06",
-      "Bounded model checking of the real WalRecovery::read_record over BufReader<File> on a symbolic disk (File reads stubbed): for frames with 1-, 2- and 5-byte payloads and EVERY "
-      "content of payload and checksum, a file cut at EVERY byte length strictly inside the frame never yields a record, and a cut inside the length prefix reads as a clean end of log.",
-      "Torn-frame kernel only. Crash points are unrolled (control concrete) so that the decoder is never reached; bit flips, complete frames, multi-frame logs, append-after-crash, "
-      "checkpoint files and rotation are outside (they need the bincode decoder, see C05 in not_applicable). crc32fast::hash is replaced by a bitwise CRC-32 model.",
+      "Bounded model checking of the real WalRecovery::read_record over BufReader<File> on a symbolic disk (File reads stubbed, crc32fast replaced by a bitwise CRC-32 model). "
+      "(1) Torn frames: for payloads of 1, 2, 3 and 5 bytes and EVERY content, a file cut at EVERY byte length strictly inside the last frame never yields a record - also when every "
+      "byte that is present is correct (cuts inside the checksum with a correct checksum prefix); a cut inside the length prefix reads as a clean end of log. (2) Checksums: a complete "
+      "frame (3-byte payload, every payload and stored-checksum content, i.e. every single- and multi-bit corruption) is returned if and only if the stored checksum equals the CRC-32 "
+      "of the payload.",
+      "Frame-acceptance kernel only. In the harnesses of (2) and the correct-prefix part of (1) the bincode decoder is cut (stub: every payload decodes), because the decoder itself is out "
+      "of reach (see C05 in not_applicable); in the symbolic-content part of (1) crash points are unrolled so that the decoder is never reached. Multi-frame logs, the replay loop's "
+      "commit/abort filter (Kani compiler crash), append-after-crash, the writer side (optional thorough harness, out of memory), checkpoint files and rotation are outside.",
       "DESIGN.md 9.4 C06")
 claim("C10",
       "Bounded model checking of zone-map pruning against the filter's own semantics, two pieces of real code: PropertyStorage::{set,might_match} / ZoneMapEntry::might_contain_* versus "
       "ExpressionPredicate's comparison kernels, for two stored values and a literal over Int64xInt64xInt64 (all i64), Float64 (all non-NaN doubles), and mixed kinds (Null, Bool, "
-      "Timestamp with Int64), all six comparison operators: whenever the filter matches a stored value, pruning does not answer 'no match'.",
+      "Timestamp with Int64) and a column holding an Int64 next to a Float64, all six comparison operators: whenever the filter matches a stored value, pruning does not answer "
+      "'no match'. One open known finding (a column mixing integers beyond 2^53 with floats) is carved out and pinned by a witness harness.",
       "Pruning kernel only, one column, two nodes, no removals; NaN stored values, strings, the planner's use of the answer (edge variables), property indexes, the range path, plan cache "
       "and factorized execution are outside.",
       "DESIGN.md 9.4 C10")
